@@ -175,7 +175,20 @@ fn run_shard(
                 return Err(format!("worker exited early at case {next} of {to}"));
             }
         } else if status.code() == Some(3) {
-            // the timeout record was written by the watchdog; continue after it
+            // the timeout record was written by the watchdog; continue after it.  An alias
+            // case is tiny: a timeout there means non-termination unless the machine stalled,
+            // so it is run once more, alone, with six times the limit.
+            let is_alias = results.last().is_some_and(|r| r["outcome"] == "timeout")
+                && read_lines(cases_path)?
+                    .get(next - 1)
+                    .and_then(|l| serde_json::from_str::<Value>(l).ok())
+                    .is_some_and(|c| c["t"] == "alias");
+            if is_alias && timeout_ms < 1_000_000 {
+                let again = run_shard(exe, worker_cmd, cases_path, &format!("{shard_out}.retry"), next - 1, next, timeout_ms * 6)?;
+                if let (Some(slot), Some(r)) = (results.last_mut(), again.into_iter().next()) {
+                    *slot = r;
+                }
+            }
         } else if status.code() == Some(2) {
             // the worker itself failed (unreadable case file, ...): tool trouble, not an outcome
             return Err(format!("worker error: {}", String::from_utf8_lossy(&child.stderr)));
